@@ -295,7 +295,10 @@ CORPUS = [["20.0 g x\nf(9.8 g x, 9.8 g x)"], ["0g flour\nmix(1/2 of flour, 1/2 o
           ["1 egg\nmeal = fry(1/2 of egg), serve\nx = boil(1/2 of egg)\neat(1/2 of meal, 1/2 of x)"], ["1 egg\nfry(eggs, oil)"],
           ["2 eggs\nfry(1/2 of the eggs)\nboil(remaining eggs)"], ["500 g flour\nmix(250 g flour)\nbake(0.25 kg flour)"],
           ["500 g flour\nmix(1 cup flour, rest of the flour)"], ["flour\nmix(100 g flour, 100 g flour)"], ["1 kg x\nf(remaining x, remaining x)"],
-          ["1 kg x\nf(60% x, 60% x)"], ["1 kg x\nf(1/3 of x, 1/3 of x)"], ["a, b = split(1 kg x)\nf(1/2 of a, 1/2 of a)\ng(b)"]]
+          ["1 kg x\nf(60% x, 60% x)"], ["1 kg sauce\ntop(1 base, 1/2 of the sauce)\ntop(1 base, 1/2 of the sauce)"],
+          ["1 kg sauce\ntop(1 base, 1/2 of the sauce)\ntop(1 base, 1/2 of the sauce)\ntop(1 base, 1/2 of the sauce)"],
+          ["1 kg x\nf(990 g x, remaining x)"], ["1 lb butter\ncream(450 g butter)\nmelt(rest of the butter)"], ["1 kg x\nf(99% x)\ng(rest of x)"],
+          ["1 kg x\nf(970 g x, remaining x)"], ["1 kg x\nf(1000 g x, remaining x)"], ["1 L milk\nheat(500 ml milk)\nwhisk(0.5 l milk)"], ["1 kg x\nf(1/3 of x, 1/3 of x)"], ["a, b = split(1 kg x)\nf(1/2 of a, 1/2 of a)\ng(b)"]]
 
 
 def oracle(run):
